@@ -1,7 +1,7 @@
 (* C08 — A run does not depend on the optimizer instance's history. *)
 From Coq Require Import String List Bool Arith.
 From PV Require Import Skeleton Lifecycle Lifecycle_proofs Loop.
-From PVGen Require Import Algos Expected GenSchema.
+From PVGen Require Import Algos Expected GenSchema GenHyper.
 From PVBridge Require Import AlgoBridge LifeMain LoopBridge.
 
 (* the per-run bookkeeping of the base class is reset by optimize() itself (regenerated schema: SResetCycle, SResetErrors, SResetDiffs) *)
@@ -27,3 +27,9 @@ Proof. intros value l r v1 v2 Hv. exact (stale_read_admits_difference loc loc_eq
 Print Assumptions C08_base_class_resets.
 Print Assumptions C08_history_independent.
 Print Assumptions C08_stale_read_admits_difference.
+
+(* state shared between objects (regenerated scan of the whole package: memoising decorators, mutable class attributes of non-pydantic classes, module-level
+   containers mutated by functions): there is none - nothing an earlier run (of this or of any other instance) computed is kept where a later run finds it: instance fields are the only state (the def-use facts above cover those) *)
+Theorem C08_no_shared_mutable_state : gen_no_shared_mutable_state = true.
+Proof. reflexivity. Qed.
+Print Assumptions C08_no_shared_mutable_state.
